@@ -1,10 +1,15 @@
 (* C14 - memory budgets hold: estimates suffice, static contexts, decoder window limit.
-   Only statements + [exact lemma]; models in Mem/{Cwksp,Estimate,DBuffers}.v, proofs in Mem/*Proofs.v, Mem/C14Final.v. *)
+   Only statements + [exact lemma]; models: Mem/Cwksp.v (zstd_cwksp.h), Mem/Estimate.v (zstd_compress.c / zstd_ldm.c
+   sizing: estimate side and reservation side), Mem/LevelDefs.v (source-size classes, needs), Mem/DBuffers.v
+   (zstd_decompress.c buffer sizing); proofs: Mem/*Proofs.v, Mem/C14Final.v.
+   [rz] is the ASAN redzone (0 in production builds, 128 under ASAN poisoning). *)
 From Coq Require Import NArith ZArith List Bool.
 From ZV.Gen Require Import Gen_C14.
-From ZV.Mem Require Import Cwksp CwkspProofs C14Final.
+From ZV.Mem Require Import Cwksp CwkspProofs Estimate EstimateProofs LevelDefs LevelProofs DBuffers DBuffersProofs C14Final.
 Import ListNotations.
 Local Open Scope N_scope.
+
+(* ---------- the workspace allocator ---------- *)
 
 (* static_never_grows: bump-pointer safety with NO budget assumption.  From a freshly initialised workspace
    [start, start+size), whatever sequence of reservations / clears is executed and whatever the sizes, the
@@ -19,6 +24,24 @@ Theorem static_never_grows :
 Proof. exact static_never_grows_l. Qed.
 Print Assumptions static_never_grows.
 
+(* on a static context the size gate of ZSTD_resetCCtx_internal is an error, never a resize *)
+Theorem static_too_small_is_error :
+  forall rz w cp ldm row pledged ext mbs buffered inb outb ri mc,
+    is_static w = true ->
+    let ldmA := if ldm_enabled ldm then ldm_adjustParameters ldm cp else ldm in
+    cwksp_sizeof w < estimate_internal rz cp ldmA true row (reset_buffInSize cp pledged mbs buffered inb)
+                                       (reset_buffOutSize cp pledged mbs buffered outb) pledged ext mbs ->
+    resetCCtx_static rz w cp ldm row pledged ext mbs buffered inb outb ri mc = ResetMemError.
+Proof. exact static_too_small_is_error_l. Qed.
+Print Assumptions static_too_small_is_error.
+
+Theorem static_never_resizes :
+  forall rz w cp ldm row pledged ext mbs buffered inb outb ri mc n,
+    is_static w = true ->
+    resetCCtx_static rz w cp ldm row pledged ext mbs buffered inb outb ri mc <> ResetResize n.
+Proof. exact static_never_resizes_l. Qed.
+Print Assumptions static_never_resizes.
+
 (* the allocator's fit rule: a well-ordered reservation list whose summed cost leaves 126 spare bytes
    (two alignment pads of at most 63 bytes) never fails and never returns NULL for a non-empty request *)
 Theorem cwksp_fit_126 :
@@ -30,3 +53,202 @@ Theorem cwksp_fit_126 :
     allocFailed w' = false /\ Forall (entry_ok w0) log.
 Proof. exact cwksp_fit_126_l. Qed.
 Print Assumptions cwksp_fit_126.
+
+(* ---------- the estimate covers the reservation list ---------- *)
+
+(* estimate_covers_reservation: for ALL cParams (no bound needed), LDM user values 0-or-in-bounds, row mode, pledged
+   size, sequence-producer flag, resolved maxBlockSize, buffer policy, base address (8-aligned) and redzone:
+   a static context whose block is at least ZSTD_estimateCCtxSize_usingCCtxParams_internal(applied params) is
+   accepted by ZSTD_initStaticCCtx, passes the size gate, and every reservation made by ZSTD_resetCCtx_internal /
+   ZSTD_reset_matchState succeeds (reserve_failed stays 0, no NULL for a non-empty request) inside the block. *)
+Theorem estimate_covers_reservation :
+  forall rz start size cp ldm row pledged ext mbs buffered inb outb,
+    start mod 8 = 0 -> mbs <> 0 ->
+    (ldm_enabled ldm = true -> ldm_user_ok ldm = true) ->
+    let ldmA := if ldm_enabled ldm then ldm_adjustParameters ldm cp else ldm in
+    estimate_internal rz cp ldmA true row (reset_buffInSize cp pledged mbs buffered inb)
+                      (reset_buffOutSize cp pledged mbs buffered outb) pledged ext mbs <= size ->
+    exists w log,
+      static_session rz start size (cp, ldm, row, mbs) pledged ext buffered inb outb = SessDone w log /\
+      allocFailed w = false /\ ws_start w = start /\ ws_end w = start + size /\
+      Forall (entry_in start size) log.
+Proof. exact estimate_covers_reservation_l. Qed.
+Print Assumptions estimate_covers_reservation.
+
+(* heap contexts: the workspace malloc'ed by the resize branch (exactly neededSpace bytes) holds everything *)
+Theorem heap_workspace_suffices :
+  forall rz start cp ldm row bin bout pledged ext mbs ri mc,
+    mbs <> 0 -> ldm_sized ldm ->
+    let needed := estimate_internal rz cp ldm false row bin bout pledged ext mbs in
+    let w0 := init start needed false in
+    let '(w', log) := run rz w0 (heap_objects ++ resetCCtx_ops cp ldm row bin bout pledged ext mbs ri mc) in
+    allocFailed w' = false /\ Forall (entry_in start needed) log.
+Proof. exact heap_workspace_suffices_l. Qed.
+Print Assumptions heap_workspace_suffices.
+
+(* CDict: static (estimate) and heap (createCDict workspace, with or without dedicated dict search) *)
+Theorem static_cdict_covers :
+  forall rz start size cp dictSize byRef,
+    start mod 8 = 0 ->
+    estimateCDictSize_advanced rz dictSize cp byRef <= size ->
+    exists w log, initStaticCDict rz start size cp dictSize byRef = InitOk w log /\
+                  allocFailed w = false /\ Forall (entry_in start size) log.
+Proof. exact static_cdict_covers_l. Qed.
+Print Assumptions static_cdict_covers.
+
+Theorem static_cdict_too_small :
+  forall rz start size cp dictSize byRef,
+    size < estimateCDictSize_advanced rz dictSize cp byRef ->
+    initStaticCDict rz start size cp dictSize byRef = InitNull.
+Proof. exact static_cdict_too_small_l. Qed.
+Print Assumptions static_cdict_too_small.
+
+Theorem heap_cdict_suffices :
+  forall rz start cp row dictSize byRef dds,
+    let sz := createCDict_workspaceSize rz cp row dictSize byRef dds in
+    let w0 := init start sz false in
+    let '(w', log) := run rz w0 (cdict_ops cp row dictSize byRef dds) in
+    allocFailed w' = false /\ Forall (entry_in start sz) log.
+Proof. exact heap_cdict_suffices_l. Qed.
+Print Assumptions heap_cdict_suffices.
+
+(* ---------- levels: estimate_monotone_level ---------- *)
+(* finite sweep (22 rows x 27 source-size classes, [vm_compute]) lifted to every level pair and EVERY source size:
+   level_covered l L := 0 <= l <= L /\ (l = 0 -> 3 <= L)   (level 0 is an alias of the default level 3).
+   Negative levels: see docs/C14.md (validated per run, not in this theorem). *)
+
+Theorem sweep_production_build : sweep_oneshot 0 = true /\ sweep_stream 0 = true.
+Proof. exact (conj sweep_oneshot_0 sweep_stream_0). Qed.
+Print Assumptions sweep_production_build.
+
+Theorem sweep_asan_build : sweep_oneshot 128 = true /\ sweep_stream 128 = true.
+Proof. exact (conj sweep_oneshot_128 sweep_stream_128). Qed.
+Print Assumptions sweep_asan_build.
+
+Theorem estimate_monotone_level :
+  forall l L s, level_covered l L -> s <= UNKNOWN ->
+    need_simple 0 l s <= estimateCCtxSize 0 L /\ need_compress2 0 l s <= estimateCCtxSize 0 L /\
+    need_stream 0 l s <= estimateCStreamSize 0 L.
+Proof. exact estimate_monotone_level_l. Qed.
+Print Assumptions estimate_monotone_level.
+
+(* end-to-end: ZSTD_initStaticCCtx(ZSTD_estimateCCtxSize(L)) + ZSTD_compressCCtx at level l, any source size *)
+Theorem levels_static_oneshot_ok :
+  forall rz start size l L s,
+    sweep_oneshot rz = true ->
+    level_covered l L -> s <= UNKNOWN -> start mod 8 = 0 ->
+    estimateCCtxSize rz L <= size ->
+    exists w log, static_simple_session rz start size l s = SessDone w log /\
+                  allocFailed w = false /\ ws_start w = start /\ ws_end w = start + size /\
+                  Forall (entry_in start size) log.
+Proof. exact levels_static_oneshot_ok_l. Qed.
+Print Assumptions levels_static_oneshot_ok.
+
+Theorem levels_static_compress2_ok :
+  forall rz start size l L s,
+    sweep_oneshot rz = true ->
+    level_covered l L -> s <= UNKNOWN -> start mod 8 = 0 ->
+    estimateCCtxSize rz L <= size ->
+    exists w log, static_stream2_session rz start size (level_pp l) s true = SessDone w log /\
+                  allocFailed w = false /\ ws_start w = start /\ ws_end w = start + size /\
+                  Forall (entry_in start size) log.
+Proof. exact levels_static_compress2_ok_l. Qed.
+Print Assumptions levels_static_compress2_ok.
+
+Theorem levels_static_stream_ok :
+  forall rz start size l L s,
+    sweep_stream rz = true ->
+    level_covered l L -> s <= UNKNOWN -> start mod 8 = 0 ->
+    estimateCStreamSize rz L <= size ->
+    exists w log, static_stream2_session rz start size (level_pp l) s false = SessDone w log /\
+                  allocFailed w = false /\ ws_start w = start /\ ws_end w = start + size /\
+                  Forall (entry_in start size) log.
+Proof. exact levels_static_stream_ok_l. Qed.
+Print Assumptions levels_static_stream_ok.
+
+(* ---------- CCtx_params estimators ---------- *)
+(* the estimators resolve row mode and LDM (enable + adjust) before sizing: their value IS the need of a reset whose
+   source size is unknown (tier-consistent case) ... *)
+Theorem ccparams_estimate_is_need :
+  forall rz p, p_nbWorkers p = 0 ->
+    estimateCCtxSize_usingCCtxParams rz p
+    = Some (session_need rz (stream2_params p UNKNOWN) UNKNOWN (p_extSeq p) true false false).
+Proof. exact ccparams_estimate_is_need_unknown. Qed.
+Print Assumptions ccparams_estimate_is_need.
+
+Theorem cstream_ccparams_estimate_is_need :
+  forall rz p, p_nbWorkers p = 0 ->
+    wlog (getCParamsFromCCtxParams p UNKNOWN 0 CpmNoAttachDict) <= 63 ->
+    estimateCStreamSize_usingCCtxParams rz p
+    = Some (session_need rz (stream2_params p UNKNOWN) UNKNOWN (p_extSeq p) true (p_inBuffered p) (p_outBuffered p)).
+Proof. exact cstream_estimate_is_need_unknown. Qed.
+Print Assumptions cstream_ccparams_estimate_is_need.
+
+Theorem ccparams_static_unknown_size_ok :
+  forall rz start size p e,
+    p_nbWorkers p = 0 -> start mod 8 = 0 ->
+    (ldm_enabled (ldm_with_enable (p_ldm p)
+        (resolveEnableLdm (ldm_enable (p_ldm p)) (getCParamsFromCCtxParams p UNKNOWN 0 CpmNoAttachDict))) = true ->
+     ldm_user_ok (p_ldm p) = true) ->
+    estimateCCtxSize_usingCCtxParams rz p = Some e -> e <= size ->
+    exists w log, static_stream2_session rz start size p UNKNOWN true = SessDone w log /\
+                  allocFailed w = false /\ ws_start w = start /\ ws_end w = start + size /\
+                  Forall (entry_in start size) log.
+Proof. exact ccparams_static_unknown_size_ok_l. Qed.
+Print Assumptions ccparams_static_unknown_size_ok.
+
+(* ... and the cross-tier statement is FALSE on the current tree (known finding C14-ccparams-level-tier) *)
+Theorem ccparams_level_tier_refuted :
+  exists e, estimateCCtxSize_usingCCtxParams 0 tier_witness_pp = Some e /\
+            e < session_need 0 (stream2_params tier_witness_pp 16384) 16384 false true false false.
+Proof. exact ccparams_level_tier_refuted_l. Qed.
+Print Assumptions ccparams_level_tier_refuted.
+
+(* ---------- streaming decoder: dstream_budget ---------- *)
+
+Theorem dstream_window_gate :
+  forall st w fcs,
+    (maxWindowSize st < clampedWindow w <-> dstream_load_header st w fcs = DsErrWindow).
+Proof. exact dstream_window_gate_l. Qed.
+Print Assumptions dstream_window_gate.
+
+Theorem dstream_budget :
+  forall st w fcs st' al,
+    maxWindowSize st < 2 ^ 62 ->
+    dstream_load_header st w fcs = DsOk st' al ->
+    needIn st w <= inBuffSize st' /\ needOut st w fcs <= outBuffSize st' /\
+    needIn st w + needOut st w fcs <= dbudget (clampedWindow w) /\
+    dbudget (clampedWindow w) <= dbudget (maxWindowSize st) /\
+    (forall n, al = Some n -> n = needIn st w + needOut st w fcs) /\
+    (bufs st <= dbudget (maxWindowSize st) -> bufs st' <= dbudget (maxWindowSize st')) /\
+    (staticSize st = 0 -> live st = bufs st -> live st' = bufs st').
+Proof. exact dstream_budget_l. Qed.
+Print Assumptions dstream_budget.
+
+Theorem dstream_static_fits :
+  forall st w fcs W0,
+    W0 < 2 ^ 62 -> clampedWindow w <= W0 ->
+    staticSize st = estimateDStreamSize W0 ->
+    dstream_load_header st w fcs <> DsErrMem.
+Proof. exact dstream_static_fits_l. Qed.
+Print Assumptions dstream_static_fits.
+
+Theorem dstream_static_iff :
+  forall st w fcs,
+    staticSize st <> 0 -> clampedWindow w <= maxWindowSize st ->
+    (dstream_load_header st w fcs = DsErrMem ->
+       staticSize st - sizeof_ZSTD_DCtx < needIn st w + needOut st w fcs) /\
+    (needIn st w + needOut st w fcs <= staticSize st - sizeof_ZSTD_DCtx ->
+       exists st', dstream_load_header st w fcs = DsOk st' None).
+Proof. exact dstream_static_iff_l. Qed.
+Print Assumptions dstream_static_iff.
+
+Theorem dstream_history_budget :
+  forall frames st,
+    maxWindowSize st < 2 ^ 62 ->
+    bufs st <= dbudget (maxWindowSize st) ->
+    let st' := dstream_history st frames in
+    bufs st' <= dbudget (maxWindowSize st) /\ maxWindowSize st' = maxWindowSize st /\
+    (staticSize st = 0 -> live st = bufs st -> sizeof_DCtx_model st' = sizeof_ZSTD_DCtx + live st').
+Proof. exact dstream_history_budget_l. Qed.
+Print Assumptions dstream_history_budget.
